@@ -171,8 +171,15 @@ def families(tier):
                     parts.append(base + ["o1 == 0"])
                     parts += [base + ["o1 == 1", "a1 == %d" % a] for a in range(3)]
     else:
-        parts = parts_product(kb=(0, 1, 2), who=(0, 1), s=range(4), settle0=(0, 1), o3=range(3), order=(0, 1))
-        parts = [p + q for p in parts for q in ((["o1 == 0"], ["o1 == 1"], ["o1 == 2"]) if "settle0 == 1" in p else ([],))]
+        pre += ["conc <= 2", "size <= 4", "s == 0 or o3 >= 1", "s == 0 or settle0 == 1", "settle0 == 0 or order == 0", "a1 <= 3", "a3 <= 3"]
+        parts = []
+        for kb in (0, 1, 2):
+            for who in (0, 1):
+                for order in (0, 1):
+                    parts.append(["kb == %d" % kb, "who == %d" % who, "settle0 == 0", "s == 0", "order == %d" % order])
+                for s_ in range(4):
+                    base = ["kb == %d" % kb, "who == %d" % who, "settle0 == 1", "s == %d" % s_]
+                    parts += [base + ["o1 == %d" % o] for o in range(3)]
     return [Family(name="group", fn="tpl_group", params=P, pre=pre, parts=parts,
                    twin_pre=["kb == 1", "who == 0", "s == 0", "settle0 == 1", "o1 == 0", "o3 == 0", "conc == 2"],
                    twin_args=[3, 1, 2, 0, 0, 0, 0, 0, 0, 1, 9, 0])]
